@@ -175,6 +175,8 @@ impl SlabRouter {
         match Self::classify_key(key) {
             KeyClass::Embedding => {
                 let entity_id = self.index.get_or_create(key);
+                #[cfg(feature = "neumann_verif")]
+                crate::verif_hooks::yield_point("router.put.emb.after_index");
                 // Extract vector from TensorValue if present
                 if let Some(TensorValue::Vector(vec)) = value.get("_embedding") {
                     // Try to store in embedding slab; if dimension mismatch, just use metadata
@@ -182,6 +184,8 @@ impl SlabRouter {
                         // Dimension mismatch - store in metadata only (this is fine)
                     }
                 }
+                #[cfg(feature = "neumann_verif")]
+                crate::verif_hooks::yield_point("router.put.emb.after_slab");
                 // Also store metadata (always includes the embedding for retrieval)
                 self.metadata.set(key, value);
                 Ok(())
@@ -220,12 +224,18 @@ impl SlabRouter {
         match Self::classify_key(key) {
             KeyClass::Embedding => {
                 if let Some(entity_id) = self.index.get(key) {
+                    #[cfg(feature = "neumann_verif")]
+                    crate::verif_hooks::yield_point("router.get.emb.after_index");
                     if let Some(vector) = self.embeddings.get(entity_id) {
+                        #[cfg(feature = "neumann_verif")]
+                        crate::verif_hooks::yield_point("router.get.emb.after_slab");
                         let mut data = self.metadata.get(key).unwrap_or_default();
                         data.set("_embedding", TensorValue::Vector(vector));
                         return Ok(data);
                     }
                 }
+                #[cfg(feature = "neumann_verif")]
+                crate::verif_hooks::yield_point("router.get.emb.before_fallback");
                 self.metadata
                     .get(key)
                     .ok_or_else(|| SlabRouterError::NotFound(key.to_string()))
@@ -253,6 +263,8 @@ impl SlabRouter {
         if !self.exists(key) {
             return Err(SlabRouterError::NotFound(key.to_string()));
         }
+        #[cfg(feature = "neumann_verif")]
+        crate::verif_hooks::yield_point("router.delete.after_exists");
 
         // The removal itself decides the result: of several concurrent deletes
         // of one key only the one that removed it reports success.
@@ -261,7 +273,11 @@ impl SlabRouter {
                 if let Some(entity_id) = self.index.get(key) {
                     self.embeddings.delete(entity_id);
                 }
+                #[cfg(feature = "neumann_verif")]
+                crate::verif_hooks::yield_point("router.delete.emb.after_slab");
                 let in_index = self.index.remove(key).is_some();
+                #[cfg(feature = "neumann_verif")]
+                crate::verif_hooks::yield_point("router.delete.emb.after_index");
                 let in_metadata = self.metadata.delete(key).is_some();
                 in_index || in_metadata
             },
@@ -293,10 +309,14 @@ impl SlabRouter {
             .into_iter()
             .map(|(k, _)| k)
             .collect();
+        #[cfg(feature = "neumann_verif")]
+        crate::verif_hooks::yield_point("router.scan.after_metadata");
 
         for (key, _) in self.index.scan_prefix(prefix) {
             keys.insert(key);
         }
+        #[cfg(feature = "neumann_verif")]
+        crate::verif_hooks::yield_point("router.scan.after_index");
 
         for key in self.cache.scan_prefix(prefix) {
             keys.insert(key);
@@ -480,6 +500,8 @@ impl SlabRouter {
 
         // Log to WAL first (if configured)
         if let Some(wal_mutex) = &self.wal {
+            #[cfg(feature = "neumann_verif")]
+            while wal_mutex.is_locked() && crate::verif_hooks::yield_point("router.wal_lock.wait") {}
             let mut wal = wal_mutex.lock();
 
             // One record per put: replaying `MetadataSet` also restores the
@@ -497,6 +519,8 @@ impl SlabRouter {
                 data: value.clone(),
             })
             .map_err(|e| SlabRouterError::WalError(format!("Failed to log put: {e}")))?;
+            #[cfg(feature = "neumann_verif")]
+            crate::verif_hooks::yield_point("router.put_durable.after_log");
 
             // Apply to in-memory state while the log mutex is still held:
             // concurrent writers then take effect in memory in the order in
@@ -524,6 +548,8 @@ impl SlabRouter {
 
         // Log to WAL first (if configured)
         if let Some(wal_mutex) = &self.wal {
+            #[cfg(feature = "neumann_verif")]
+            while wal_mutex.is_locked() && crate::verif_hooks::yield_point("router.wal_lock.wait") {}
             let mut wal = wal_mutex.lock();
 
             // Log embedding delete if key is in entity index
@@ -545,6 +571,8 @@ impl SlabRouter {
                 key: key.to_string(),
             })
             .map_err(|e| SlabRouterError::WalError(format!("Failed to log delete: {e}")))?;
+            #[cfg(feature = "neumann_verif")]
+            crate::verif_hooks::yield_point("router.delete_durable.after_log");
 
             // Apply to in-memory state while the log mutex is still held (see
             // `put_durable`).
@@ -577,6 +605,8 @@ impl SlabRouter {
 
         // Log checkpoint marker and truncate WAL
         if let Some(wal_mutex) = &self.wal {
+            #[cfg(feature = "neumann_verif")]
+            while wal_mutex.is_locked() && crate::verif_hooks::yield_point("router.wal_lock.wait") {}
             let mut wal = wal_mutex.lock();
 
             let entry = WalEntry::Checkpoint {
@@ -710,6 +740,8 @@ impl SlabRouter {
     /// Returns an error if WAL fsync fails.
     pub fn wal_sync(&self) -> Result<(), SlabRouterError> {
         if let Some(wal_mutex) = &self.wal {
+            #[cfg(feature = "neumann_verif")]
+            while wal_mutex.is_locked() && crate::verif_hooks::yield_point("router.wal_lock.wait") {}
             let mut wal = wal_mutex.lock();
             wal.fsync()
                 .map_err(|e| SlabRouterError::WalError(format!("Failed to sync WAL: {e}")))?;
